@@ -346,7 +346,35 @@ def run(ctx):
             sample={"input": str(inp.sympy)[:200],
                     "factored": str(got.sympy)[:200], "select": repr(sel),
                     "max_order": max_order})
-        if k < (3 if quick else 15):
+        if k < (4 if quick else 16):
+            # reduce_expr on a term with an explicit orbital-energy fraction
+            # whose numerator is a weighted sum of denominator brackets (one
+            # of them the denominator of the first-order doubles)
+            try:
+                from adcgen.sympy_objects import NonSymmetricTensor as NST
+                i_, j_, k_ = occ[5], occ[6], occ[7]
+                a_, b_, c_ = virt[5], virt[6], virt[7]
+
+                def e__(x):
+                    return NST("e", (x,))
+                B1 = e__(i_) + e__(j_) - e__(a_) - e__(b_)
+                B2 = e__(i_) + e__(k_) - e__(a_) - e__(c_)
+                w1, w2 = rng.choice([(2, 1), (3, 1), (1, 2), (3, 2)])
+                t21 = itmds["t2_1"].tensor(indices=[i_, j_, a_, b_],
+                                           return_sympy=True)
+                fr = (G.random_coef(rng) * t21 * NST("W", (k_, c_))
+                      * NST("w", (j_, b_)) * (w1 * B1 + w2 * B2) / B2)
+                tgf = []
+                Ef = Expr(fr, real=True, target_idx=tgf)
+                redf = reduce_expr(Ef.copy())
+                add("reduce:frac:t2_1", redf,
+                    Ef.copy().expand_intermediates(), tgf,
+                    sample={"expr": str(Ef.sympy)[:200]})
+            except Exception as ex:
+                ctx.violation("C11:reduce-exception:frac:t2_1",
+                              f"reduce_expr raised {ex!r}",
+                              {"expr": "t2_1 * W * w * (w1 B1 + w2 B2)/B2"},
+                              False)
             try:
                 red = reduce_expr(E0.copy())
                 add(f"reduce:{name}", red, E0.copy().expand_intermediates(),
